@@ -328,6 +328,13 @@ func (in *Interp) decideEnv(e *Expr, what string) (bool, bool) {
 					if qc, ok := q.ConstI(); ok {
 						return (qc > 0) != neg, true
 					}
+					// an 8-byte box header carries a 32-bit size: hdr.Size <= 2^32-1 once hdr.Hdrlen is known to be 8
+					if ks, ok := in.cfg["hdr.Hdrlen"]; ok && len(ks) == 1 && ks[0].val == 8 {
+						pq := polyOf(q)
+						if len(pq.T) <= 2 && pq.T["hdr.Size"] == 1 && len(pq.T)-btoi(pq.T[""] != 0) == 1 && pq.T[""]+(1<<32-1) <= 0 {
+							return neg, true
+						}
+					}
 					name := "positive(" + q.String() + ")"
 					pa := in.atom(name, 1, false)
 					if v, ok := pa.ConstI(); ok {
